@@ -148,3 +148,4 @@ extend("C09", "out-of-range aliases modulo 256 and 2^16", "The out-of-range inde
 extend("C04", "families with 63..66 and 255..258 distinct variables", "Arity and binding are also checked on texts with 63..66 and 255..258 distinct variables (all slice lengths 0..n+2).")
 extend("C12", "five large texts (300 operands, 257 calls, 130 nesting levels)", "A third model parses, prints, converts and serialises five large texts.")
 extend("C13", "table with 261 operators", "Family n reads binary, unary and constant names that sit behind 257 other operators in the table.")
+extend("C10", "all 23 named helper methods, the constant constructors and the overloaded operators on DeepEx<f64>", "Every named helper of DeepEx<f64> is compared with operate_unary of that name and with the Rust primitive on the operand's value; pi / e / tau / one / zero / from_num; + - * / pow on all ordered pairs of eight deep expressions.")
